@@ -1370,17 +1370,22 @@ func ruleStateVersion(r *Report) {
 	}
 	var wv, rv int64 = -1, -2
 	// first WriteUvarint with a constant argument in writeState itself
-	for _, c := range callsTo(ws, false, "(*iostream.Writer).WriteUvarint") {
-		cc, _, _ := callCommon(c)
-		if v, ok := constInt(cc.Args[1]); ok && wv < 0 {
+	wcs := callsToDeep(ws, false, "(*iostream.Writer).WriteUvarint")
+	sort.Slice(wcs, func(i, j int) bool { return wcs[i].Inner.Pos() < wcs[j].Inner.Pos() })
+	for _, c := range wcs {
+		cc, _, _ := callCommon(c.Inner)
+		nv, _ := normE(cc.Args[1], c.Env, false)
+		if v, ok := constInt(nv); ok && wv < 0 {
 			wv = v
 		}
 	}
-	allInstrs(rs, func(ins ssa.Instruction) {
+	deepVisit(rs, func(ins, _ ssa.Instruction) {
 		if bo, ok := ins.(*ssa.BinOp); ok && (bo.Op == token.NEQ || bo.Op == token.EQL) {
-			if v, isC := constInt(bo.Y); isC {
-				if cl, isEx := extractOf(bo.X, 0); isEx && calleeIs(&cl.Call, "(*iostream.Reader).ReadUvarint") {
-					rv = v
+			for _, pair := range [][2]ssa.Value{{bo.X, bo.Y}, {bo.Y, bo.X}} {
+				if v, isC := constInt(pair[1]); isC {
+					if cl, isEx := extractOf(norm(pair[0]), 0); isEx && calleeIs(&cl.Call, "(*iostream.Reader).ReadUvarint") {
+						rv = v
+					}
 				}
 			}
 		}
